@@ -57,6 +57,21 @@ def _zero_mantissa(ctx, rep):
 
 
 def check(ctx, rep):
+    # plain decimal notation is used only while every digit before the point is significant: from 10**digits on (exponent >= the
+    # number of digits the type holds) the value is shown in scientific notation, or a padded zero would stand for a lost digit
+    ts = ctx.fn('pcbasic/basic/values/numbers.py:Float.to_str')
+    from ..algebra import lin as _lin
+    thr = []
+    for c in own_nodes(ts):
+        if isinstance(c, ast.Compare) and len(c.ops) == 1 and norm(c.left) == 'exp10' and isinstance(c.ops[0], (ast.Gt, ast.GtE)):
+            t = _lin(c.comparators[0])
+            if isinstance(t, dict):
+                t = dict(t)
+                if isinstance(c.ops[0], ast.Gt):
+                    t[''] = t.get('', 0) + 1 if '' in t or True else 1
+                thr.append(dict((k, v) for k, v in t.items() if v))
+    rep.ob('print.scientific-from-first-lost-digit', 'to_str switches to scientific notation when the decimal exponent reaches self.digits',
+           len(thr) == 1 and thr[0] in ({'self.digits': 1}, {'self.digits': 1, '': 0}), repr(thr), ctx.where(ts))
     _zero_mantissa(ctx, rep)
     digits = {}
     for cname in ('Single', 'Double'):
@@ -151,6 +166,8 @@ def variants(ctx):
         return lambda tree: f(mu.find_def(tree, fname))
 
     return [
+        mu.Variant('decimal-notation-one-digit-too-long', 'break', 'pcbasic/basic/values/numbers.py',
+                   lambda tree: mu.replace_expr(mu.find_def(tree, 'Float.to_str'), mu.text_is('exp10 > self.digits - 1'), 'exp10 > self.digits'), expect='print.scientific-from-first-lost-digit'),
         mu.Variant('zero-mantissa-scaled-by-exponent', 'break', 'pcbasic/basic/values/numbers.py',
                    lambda tree: mu.remove_stmt(mu.find_def(tree, 'Float.from_decimal'), lambda st: isinstance(st, ast.If) and norm(st.test) == 'not mantissa'), expect='literal.zero-mantissa-is-zero'),
         Va('zeros-before-point-discounted', 'break', N,
